@@ -3,6 +3,7 @@ import Mathlib.Tactic.Abel
 import Mathlib.Data.Fintype.Card
 import Mathlib.Logic.Equiv.Defs
 import CCV.Lemmas.Pivot
+import CCV.Lemmas.Mask
 /-
   C03 — a party's view reveals nothing beyond its own inputs and outputs.
 
@@ -210,6 +211,46 @@ example : Disc (X := Int) (R := Int)
   · intro m' hm'; simp at hm'
 
 end discipline
+
+/- ------------------------------------------------------------------------------------------------
+   Part (iii): from an exported graph and a certificate to `Hides`, through the verified checker.
+   The per-graph obligations CCV/Generated/C03_*.lean state `discOk G cert = true ∧ compOk G comp = true`
+   for the graph `compile_context` emits NOW, classified for one observer, and are decided by the kernel.
+   ------------------------------------------------------------------------------------------------ -/
+section checker
+open CCV.Pivot CCV.Mask
+variable {R : Type} [AddCommGroup R]
+
+/-- **Soundness of the checked certificate.**  For an exported graph `g` (any semantics `sem` of the
+    non-additive operations, any values `own` of the observer's inputs and `kn` of the masks it knows):
+    if the checker accepts the certificate — `cert`: the non-computable messages delivered to the
+    observer, last first, each with its pivot; `comp`: the messages it can compute itself — then the
+    observer's view (all those messages, and every non-pivot coordinate of the unknown tape) is
+    identically distributed for all values of the other parties' secrets. -/
+theorem checked_graph_hides (sem : Nat → List R → R) (own kn : Nat → R) (g : List Mask.Node)
+    (cert : Cert) (comp : List Nat) (h : discOk g cert = true) (hc : compOk g comp = true) :
+    Hides (fun (x : Nat → R) (ρ : Nat → R) =>
+        ((cert.map (toMsg sem own kn g)).map (fun m => m.f x ρ),
+         comp.map (fun m => (evalRun sem own kn x ρ g []).getD m 0),
+         offPivots (cert.map (toMsg sem own kn g)) ρ))
+      (fun _ => ()) := by
+  intro x x' _
+  obtain ⟨σ, τ, S⟩ := exists_sim _ (discOk_disc sem own kn g cert h) x x'
+  refine ⟨σ, ⟨Function.LeftInverse.injective S.left, Function.RightInverse.surjective S.right⟩, ?_⟩
+  intro ρ
+  refine Prod.ext ?_ (Prod.ext ?_ ?_)
+  · exact List.map_congr_left (fun m hm => S.align ρ m hm)
+  · exact compOk_const sem own kn g comp hc x x' ρ (σ ρ)
+  · exact (offPivots_congr _ ρ (σ ρ) (fun v hv => S.fixσ ρ v hv)).symm
+
+/-- non-vacuity: owner 1 shares x with masks f0, f1, f2; observer 0 knows f0 (var 0) and f1 (var 1) but
+    not f2 (tape variable 2) and receives share 1 = (f1 − f2) + x:
+    nodes 0:x 1:f1 2:f2 3:f1−f2 4:(f1−f2)+x; message node 4, pivot 2 -/
+example : discOk [⟨.hid 0, []⟩, ⟨.tapeK 1, []⟩, ⟨.tapeU 2, []⟩, ⟨.sub, [1, 2]⟩, ⟨.add, [3, 0]⟩] [(4, 2)] = true
+    ∧ compOk [⟨.hid 0, []⟩, ⟨.tapeK 1, []⟩, ⟨.tapeU 2, []⟩, ⟨.sub, [1, 2]⟩, ⟨.add, [3, 0]⟩] [1] = true := by
+  decide
+
+end checker
 
 /-- non-vacuity: over ℤ/2 (bits) the input-sharing view of x = 0 and x = 1 has, for each value,
     exactly one tape producing it -/
